@@ -200,6 +200,7 @@ def _gen_world(r):
     w["meta_claim"] = r.choice([None] * 9 + ["fewer", "more"]) if kind != "split" else None
     # a STALE compressed copy (of an earlier transfer: same shape, other content) sits next to the uncompressed original:
     # whatever the converter does with it, the original handed in must stay recoverable
+    w["time_4dec"] = r.random() < 0.25      # the duration written with four decimals, as the acquisition software does (the exact count is then only in the size)
     w["prelude_conv"] = r.random() < 0.12   # an earlier conversion in the same process: same probe (serial), another site-to-shank layout
     w["uuid_names"] = r.random() < 0.12     # *.imec0.ap.<uuid>.bin, as files are named on the archive
     w["extremes"] = r.random() < 0.3      # corners of int16 and runs of zeros in the content
@@ -271,7 +272,8 @@ class World:
             claimed = max(1, w["ns"] - max(1, w["ns"] // 3))
         elif w.get("meta_claim") == "more":
             claimed = w["ns"] + max(1, w["ns"] // 4)
-        world.write_recording(self.pdir, STEM, fixture, self.O, shank_of=w["shank_of"], claimed_ns=claimed)
+        world.write_recording(self.pdir, STEM, fixture, self.O, shank_of=w["shank_of"], claimed_ns=claimed,
+                              time_decimals=(4 if w.get("time_4dec") else None))
         self.U = UUID if (w.get("uuid_names") and kind != "split") else ""
         self.bin = self.pdir / f"{STEM}.ap{self.U}.bin"
         self.cbin = self.pdir / f"{STEM}.ap{self.U}.cbin"
